@@ -303,19 +303,17 @@ class C14(core.Property):
     detail['model'] = ans
     tags = [name, f'L={L}' if ml.is_seq(spec) else 'scalar', f'keys={tkey}/{pkey}']
 
-    if expect_err or err:
+    if expect_err:
+      # num_classes != number of scores is outside the metric's domain: the property says nothing about it
+      # (today: ValueError).  The outcome is only recorded in the input distribution.
+      detail['impl'] = 'err:' + str(err) if err else 'a result'
+      return Outcome(nontrivial=False, tags=tuple(tags + ['out-of-domain:' + ('error' if err else 'result')]),
+                     key=classify(spec), detail=detail)
+    if err:
       detail['impl'] = 'err:' + str(err)
-      if expect_err and err != 'ValueError':
-        problems.append(f'ConfusionMatrix(num_classes={b[1]}) on {len(ex["s"][0])} classes: documented '
-                        f'ValueError, got {err or "a result"}')
-      if not expect_err:
-        problems.append(f'{name}: evaluate_example raised {err} on an in-domain example')
-        shape_failure = err == 'ValueError'
-      if (ans == 'err') != bool(err):
-        corr.append(f'model {ans} vs impl error {err}')
-      return Outcome(oracle_fail='; '.join(problems) or None, corr_fail='; '.join(corr) or None,
-                     nontrivial=True, tags=tuple(tags + ['error-case']), key=classify(spec, shape_failure),
-                     detail=detail)
+      problems.append(f'{name}: evaluate_example raised {err} on an in-domain example')
+      return Outcome(oracle_fail='; '.join(problems) or None, nontrivial=True, tags=tuple(tags + ['error-case']),
+                     key=classify(spec, shape_failure=True), detail=detail)
 
     # ---- independent oracle: the documented definition, recomputed in Python
     kind, ref = ml.ref_stat(spec, ex)
